@@ -40,3 +40,14 @@ func init() {
 		return tuple{&cell, iface{}}
 	}
 }
+
+func init() {
+	// Harness helper (package revision, C15): builds a crossplane-runtime
+	// *parser.Package from typed objects. Natively the harness pokes the
+	// unexported fields through reflect/unsafe; here the value is built
+	// directly: Package{meta []runtime.Object, objects []runtime.Object}.
+	externals["github.com/crossplane/crossplane/internal/controller/pkg/revision.zzMakePackage"] = func(fr *frame, args []value) value {
+		var cell value = structure{args[0], args[1]}
+		return &cell
+	}
+}
